@@ -1240,12 +1240,19 @@ Proof.
   - split; [discriminate|]. intros [[act0 [E0 _]]|[r [[act0 [E0 _]] _]]]; discriminate.
 Qed.
 
+Lemma dup_elems_NoDup : forall l, NoDup l -> dup_elems l = [].
+Proof.
+  intros l H; induction H as [|x l Hx Hn IH]; simpl; [reflexivity|].
+  apply mem_false_In in Hx. rewrite Hx. exact IH.
+Qed.
+
 Theorem chk_sound_voters : forall ua up s, inv s -> voters_disc (obs_of ua up s) = [].
 Proof.
   intros ua up s I. unfold voters_disc; cbn [o_voters obs_of]. apply flat_map_nil. intros [p v] Hin.
   apply in_map_iff in Hin. destruct Hin as [p' [E _]]. inversion E; subst p' v; clear E. cbn [fst snd].
-  destruct (voters_exact s p I) as [l [Hv [_ Hl]]]. rewrite Hv.
-  rewrite (filter_nil (fun a => negb (mem a l))), (filter_nil (fun a => negb (mem a (spec_voters (obs_of ua up s) p)))); [reflexivity| |].
+  destruct (voters_exact s p I) as [l [Hv [Hnd Hl]]]. rewrite Hv.
+  rewrite (filter_nil (fun a => negb (mem a l))), (filter_nil (fun a => negb (mem a (spec_voters (obs_of ua up s) p)))),
+          (dup_elems_NoDup l Hnd); [reflexivity| |].
   - intros a Ha. apply Hl in Ha. apply negb_false_iff, mem_In. unfold spec_voters. apply filter_In. split.
     + cbn [o_actors obs_of]. assert (exists act, lookup a (actors s) = Some act) as [act E].
       { destruct Ha as [[act [E _]]|[r [[act [E _]] _]]]; exists act; assumption. }
@@ -1255,11 +1262,24 @@ Proof.
     apply spec_whitelisted_model in Ha. apply negb_false_iff, mem_In, Hl. assumption.
 Qed.
 
-(* all state clauses together: the checker accepts every state that satisfies the invariant, hence
+(* record clauses: the invariant keeps role lists and permission lists free of repetitions *)
+Theorem chk_sound_records : forall ua up s, inv s -> record_disc (obs_of ua up s) = [].
+Proof.
+  intros ua up s I. unfold record_disc; cbn [o_actors o_roles obs_of].
+  rewrite !flat_map_nil; [reflexivity| |].
+  - intros [r rp] Hin. apply canon_In_lookup in Hin. destruct Hin as [Hl _].
+    destruct (inv_roles s I r rp Hl) as [[N1 [N2 _]] _]. cbn [fst snd].
+    rewrite (dup_elems_NoDup _ N1), (dup_elems_NoDup _ N2). reflexivity.
+  - intros [a act] Hin. apply canon_In_lookup in Hin. destruct Hin as [Hl _].
+    destruct (inv_actors s I a act Hl) as [N1 N2]. cbn [fst snd].
+    rewrite (dup_elems_NoDup _ N1), (dup_elems_NoDup _ N2). reflexivity.
+Qed.
+
+(* all state clauses (allow-*, index-*, voters-* incl. duplicates, record-*) together: the checker accepts every state that satisfies the invariant, hence
    (indexes_refine_guarded) every state of a guarded model run *)
 Theorem chk_sound_state : forall ua up s who, inv s -> state_clauses up who None (obs_of ua up s) = [].
 Proof.
-  intros ua up s who I. unfold state_clauses. rewrite chk_sound_allow, chk_sound_index, chk_sound_voters by assumption. reflexivity.
+  intros ua up s who I. unfold state_clauses. rewrite chk_sound_allow, chk_sound_index, chk_sound_voters, chk_sound_records by assumption. reflexivity.
 Qed.
 
 (* ------------------------------------------------------------------ inclusion of string tables (for Gen/Gates.v) *)
